@@ -1026,6 +1026,15 @@ func runShape(where, secName, variant string) {
 		o = loadFile([]byte(raw), nil, nil)
 	case "rawbytes":
 		o = loadFile([]byte(variant), nil, nil)
+	case "group":
+		// a whole section group ("consensus", "api", ..., or "cluster") of an otherwise default file replaced
+		v, err := decodeAny(variant)
+		if err != nil {
+			return
+		}
+		file := fullFile(nil)
+		file[secName] = v
+		o = loadFile([]byte(compact(file)), nil, nil)
 	default:
 		return
 	}
@@ -1184,6 +1193,11 @@ func boundary(suite string, tier string) {
 				runShape("file", s.def.name, v)
 			}
 			runShape("missing", s.def.name, "-")
+		}
+		for _, g := range []string{"cluster", "consensus", "api", "ipfs_connector", "state", "pin_tracker", "monitor", "allocator", "informer", "observations", "datastore"} {
+			for _, v := range []string{"null", "7", "[]", "{}", `"x"`, `{"unknown_component_verif":null}`, `{"unknown_component_verif":{}}`} {
+				runShape("group", g, v)
+			}
 		}
 		var names []string
 		for n := range rawVariants {
